@@ -31,7 +31,7 @@ Physical == /\ DLt(SlitLnP(Lj(j), A, H, Temps[t]), DZero)
             /\ DLt(A.d, WidthOf("slit", Lj(j), H)) /\ DLeq(WidthOf("slit", Lj(j), H), WMax)
             /\ DClose(LOf("slit", WidthOf("slit", Lj(j), H), H), Lj(j), DTol(6))
 \* the presentation orders are permutations of the grid
-PermOk == \A pm \in {"id", "swap", "rev"} : {PermIdx(pm, np, i) : i \in 1..np} = 1..np
+PermOk == \A pm \in {"id", "swap", "rev", "over", "dup"} : {PermIdx(pm, np, i) : i \in 1..np} = 1..np
 \* the published Rege-Yang slit / sphere equations are attractive (ln p < 0) on the grid; at least one layer fits
 RYAttractive == LET M == RYSlitLayers(Lj(j), A, H) IN
                 /\ DLt(RYSlitLnP(Lj(j), A, H, Temps[t], DLt(M, DInt(2))), DZero)
